@@ -183,8 +183,37 @@ class NotesReader:
             self._blob[oid] = p.out.decode("utf-8", "replace") if p.rc == 0 else None
         return self._blob[oid]
 
+    def prefetch(self, commit, paths):
+        """One `git cat-file --batch` for many files of a commit (commits with hundreds of files)."""
+        todo = [p for p in paths if (commit, p) not in self._show and "\n" not in p]
+        if len(todo) < 50:
+            return
+        inp = "".join("%s:%s\n" % (commit, p) for p in todo).encode("utf-8", "surrogateescape")
+        r = self.git("cat-file", "--batch", input=inp, raw=True)
+        if r.rc != 0:
+            return
+        out, i = r.out, 0
+        for p in todo:
+            j = out.find(b"\n", i)
+            if j < 0:
+                return
+            head = out[i:j].split(b" ")
+            if head[-1] == b"missing" or len(head) != 3:
+                self._show[(commit, p)] = None
+                i = j + 1
+                continue
+            size = int(head[2])
+            body = out[j + 1:j + 1 + size]
+            i = j + 1 + size + 1
+            self._show[(commit, p)] = split_lines(body.decode("utf-8", "replace")) if head[1] == b"blob" else None
+
     def file_lines(self, commit, path):
         k = (commit, path)
+        if k not in self._show and len(self.tree_paths(commit)) > 200:
+            if path not in self.tree_paths(commit):
+                self._show[k] = None
+                return None
+            self.prefetch(commit, sorted(self.tree_paths(commit)))
         if k not in self._show:
             p = self.git("cat-file", "blob", "%s:%s" % (commit, path), raw=True)
             self._show[k] = split_lines(p.out.decode("utf-8", "replace")) if p.rc == 0 else None
